@@ -205,6 +205,9 @@ def translate(ra, dec, r, theta):
     factor += np.cos(np.radians(dec)) \
             * np.sin(np.radians(r)) \
             * np.cos(np.radians(theta))
+    # rounding can leave |factor| marginally above 1 when the end point is
+    # (close to) a pole, and arcsin would then return nan
+    factor = np.clip(factor, -1, 1)
     dec_out = np.degrees(np.arcsin(factor))
 
     y = np.sin(np.radians(theta)) * np.sin(np.radians(r)) \
